@@ -73,11 +73,14 @@ class StringField(Field):
             else:
                 value = value.strip()
 
-        if self.required and not value:
-            raise ValueError("value is required")
-
         if self.transform_case:
             value = value.lower() if self.transform_case == "lower" else value.upper()
+            if isinstance(self.transform_strip, str):
+                # the case transformation may expose new characters to strip
+                value = value.strip(self.transform_strip)
+
+        if self.required and not value:
+            raise ValueError("value is required")
 
         if self.min_len is not None and len(value) < self.min_len:
             raise ValueError("value must be at least %d characters" % self.min_len)
